@@ -34,7 +34,8 @@ ASSUMPTIONS = [
 ]
 
 TIERS = {
-    'quick': (75.0, 4000, 240.0, 24),
+    # (quick is bounded by a number of histories - about 70 s on 16 idle cores - and only capped by wall time)
+    'quick': (220.0, 700, 240.0, 24),
     'thorough': (1100.0, 100000, 600.0, 200),
 }
 
